@@ -181,7 +181,26 @@ def run(ctx):
 
     # ---- stream K
     ban = gen_data.observe_ban()
-    given = ["CCO", "[H][H]", "OO", "OOC", "COO", "O", "[Na]", "[H-]", "[K]", "[Li]", "CC(=O)O", "ClCl", "[Na:1]", "c1ccccc1[OH:3]", "[O][O]", "C[O]", "BrI", "ICl", "N"]
+    given = ["CCO", "[H][H]", "OO", "OOC", "COO", "O", "[Na]", "[H-]", "[K]", "[Li]", "CC(=O)O", "ClCl", "[Na:1]", "c1ccccc1[OH:3]", "[O][O]", "C[O]", "BrI", "ICl", "N",
+             "[H]/N=C(\\C)c1ccccc1", "[H]C(=O)O", "C([H])([H])O"]      # molecules whose own text holds the token "[H]"
+
+    def side_comp(side):
+        tot = collections.Counter()
+        for c in side.split("."):
+            if c == "":
+                continue
+            tc = true_comp(c)
+            if tc is None:
+                return None
+            tot.update(tc)
+        return tot
+
+    def standalone(side):
+        # every marker that follows a dot is a whole component: the string surgery then removes / adds complete molecules only
+        # (and the side does not begin with one: in the pipeline completions are appended after the given, non-empty side, and free
+        # atomic H / O among the given molecules are outside the property's domain)
+        cs = side.split(".")
+        return cs[0] not in ("[H]", "[O]", "OO") and all(not any(c.startswith(m) and c != m for m in ("[H]", "[O]", "OO")) for c in cs[1:])
     added = ["[H]", "[O]", "OO", "O", "ClCl", "BrBr", "[H+]", "[Cl-]", "FF", "II", "N", "O=O"]
     mk = collections.Counter()
     for _ in range(800 if ctx.quick() else 8000):
@@ -206,6 +225,15 @@ def run(ctx):
             ctx.nontrivial.add(("K", r, p))
         exprs.append("kf %s %s %s" % (cstr(r), cstr(p), copt(exp, lambda x: cpair(cstr(x[0]), cstr(x[1])))))
         meta.append(("constraint", entry, exp))
+        if exp and standalone(p) and standalone(r):
+            # property: the rewrite of atomic H / O / peroxide completions keeps the imbalance (what is added still sums to what is missing)
+            a, b, c, d = side_comp(r), side_comp(p), side_comp(exp[0]), side_comp(exp[1])
+            if None not in (a, b, c, d):
+                d0 = {k: b.get(k, 0) - a.get(k, 0) for k in set(a) | set(b) if b.get(k, 0) != a.get(k, 0)}
+                d1 = {k: d.get(k, 0) - c.get(k, 0) for k in set(c) | set(d) if d.get(k, 0) != c.get(k, 0)}
+                ctx.count("K", "imbalance_preservation_checked")
+                if d0 != d1:
+                    ctx.fail("constraint-rewrite-changes-imbalance", entry, {"accepted": exp, "before": d0, "after": d1})
         if exp:  # property: no dihalogen / interhalogen among the molecules ADDED to the accepted product side
             for c in (collections.Counter(exp[1].split(".")) - collections.Counter(giv)).elements():
                 if c and is_dihalogen(c):
